@@ -46,6 +46,12 @@ def gen_repo_history(rng, n, impl='mem'):
             ops.append('l:%s' % name)
         else:
             ops.append('A')
+    if impl == 'mem' and rng.random() < 0.4:
+        # two appends to one asset that overlap in time (the in-memory repository is meant to be shared between workers)
+        name = rng.choice(REPO_NAMES)
+        a = [day[name] + k for k in range(rng.randrange(1, 4))]
+        b = [day[name] + 10 + k for k in range(rng.randrange(1, 4))]
+        ops.append('P:%s:%s/%s' % (name, ','.join(map(str, a)), ','.join(map(str, b))))
     return ops
 
 
@@ -78,6 +84,13 @@ def py_repo(ops):
             out.append('err' if f[1] not in store else 'ok:' + ','.join('%d.%d' % x for x in store[f[1]] if x[0] > int(f[2])))
         elif f[0] == 'L':
             out.append('ok')
+        elif f[0] == 'P':
+            lst = store.setdefault(f[1], [])
+            for part in f[2].split('/'):
+                for d in ([int(x) for x in part.split(',')] if part else []):
+                    serial += 1
+                    lst.append((d, serial))
+            out.append('ok:' + ','.join(sorted('%d.%d' % x for x in lst)))
         elif f[0] == 'l':
             out.append('err' if not store.get(f[1]) else 'ok:%d' % store[f[1]][-1][0])
         elif f[0] == 'A':
@@ -111,7 +124,7 @@ def check_c10(res, tier, replay):
         return op
     go = vlib.run_go(lines)
     # (a file that became a symbolic link is the same asset: the model does not see the operation at all)
-    model = vlib.run_model(['r%d REPO %s %s' % (i, impl, ';'.join(for_model(o) for o in ops if not o.startswith('L:')) or 'A') for i, (impl, ops) in enumerate(hist)])
+    model = vlib.run_model(['r%d REPO %s %s' % (i, impl, ';'.join(for_model(o) for o in ops if o[0] not in 'LP') or 'A') for i, (impl, ops) in enumerate(hist)])
     mism = bad = nobs = 0
     known = collections.Counter()
     cells = set()
@@ -120,8 +133,8 @@ def check_c10(res, tier, replay):
         g, m = go.get('r%d' % i, 'missing'), model.get('r%d' % i, 'missing')
         cells.add((impl, min(len(ops) // 5, 10)))
         gm = g
-        if g.startswith('ok ') and any(o.startswith('L:') for o in ops):
-            kept = [x for x, o in zip(g[3:].split(';'), ops) if not o.startswith('L:')]
+        if g.startswith('ok ') and any(o[0] in 'LP' for o in ops):
+            kept = [x for x, o in zip(g[3:].split(';'), ops) if o[0] not in 'LP']
             gm = 'ok ' + ';'.join(kept) if kept else m
         if gm != m:
             mism += 1
